@@ -116,7 +116,7 @@ const VAL: &[&str] = &["calc(", "min(", "CALC(", "Clamp(", "1px", " + ", " - ", 
 const WRAP: &[(&str, &str)] = &[("", ""), ("@media (min-width:1rpx){", "}"), ("@MEDIA (min-width:1px){", "}"), ("@layer x{", "}"), ("@supports selector(.c .d){", "}"), ("@container n (min-width: calc(1px + 2rpx)){", "}"), ("@starting-style{", "}"), ("@scope (.c) to (.d){", "}"), ("@STARTING-STYLE{", "}"), ("@document url(x){", "}")];
 /// at-rules whose block holds declarations (or keyframe / margin-box blocks of declarations), never selectors
 const DECL_WRAP: &[(&str, &str)] = &[("@page{width:", "}"), ("@page :first{margin:0 ", "}"), ("@font-face{width:", "}"), ("@keyframes k{from{width:", "}}"), ("@page{@top-left{width:", "}}"), ("@property --x{initial-value:", "}"), ("@counter-style c{pad:", "}")];
-const BOUND: &str = "selectors of <= 4 token-level pieces from 15 (dot, identifiers, combinators, colon, star, :is/:not, brackets, =, hash; plain, under @media and inside x:is(..)), selectors of <= 4 pieces from 14 selector pieces (classes, combinators, :not/:is/::slotted/:nth-child(.. of ..), comments) under 10 wrappers (none, @media, @MEDIA, @layer, @supports selector(), @container with calc, @starting-style, @STARTING-STYLE, @scope, @document), and declaration values of <= 4 pieces from 20 value pieces (calc, min, CALC, Clamp, nested parentheses, var, rpx, comments, `;` also doubled and leading, !important, a hash, a second declaration, signed numbers), and values of <= 2 pieces inside 7 declaration at-rules (@page, @font-face, @keyframes, margin boxes, @property, @counter-style); only inputs the transformer accepts without a warning; class prefixes `p` and the empty prefix";
+const BOUND: &str = "selectors of <= 4 token-level pieces from 15 (dot, identifiers, combinators, colon, star, :is/:not, brackets, =, hash; plain, under @media and inside x:is(..)), selectors of <= 4 pieces from 14 selector pieces (classes, combinators, :not/:is/::slotted/:nth-child(.. of ..), comments) under 10 wrappers (none, @media, @MEDIA, @layer, @supports selector(), @container with calc, @starting-style, @STARTING-STYLE, @scope, @document), and declaration values of <= 4 pieces from 20 value pieces (calc, min, CALC, Clamp, nested parentheses, var, rpx, comments, `;` also doubled and leading, !important, a hash, a second declaration, signed numbers), and values of <= 2 pieces inside 7 declaration at-rules (@page, @font-face, @keyframes, margin boxes, @property, @counter-style); selectors of <= 2 pieces before and after `:host` rules with :host conversion, prefix and prefix sign on; only inputs the transformer accepts without a warning; class prefixes `p` and the empty prefix";
 
 fn well_nested(css: &str) -> bool {
     let mut st = vec![];
@@ -139,6 +139,24 @@ fn check_with(css: &str, prefix: &str) -> Option<(String, String)> {
     if want != got {
         let show = |v: &Vec<String>| v.iter().map(|s| if s == "\u{1}" { "\u{2423}".to_string() } else { s.clone() }).collect::<Vec<_>>().join(" ");
         return Some((format!("output {:?} retokenises to [{}]", outs, show(&got)), format!("[{}]", show(&want))));
+    }
+    None
+}
+/// options interplay: with :host conversion on, a `:host` rule moves to the low-priority output; every OTHER rule, before and
+/// after it, is rewritten exactly as it is without the `:host` rule
+fn check_host(rule: &str) -> Option<(String, String)> {
+    let css = format!(".h1{{width:1px}}:host{{color:red}}{}@media x{{:host{{top:0}}{}}}", rule, rule);
+    let plain = format!(".h1{{width:1px}}{}@media x{{{}}}", rule, rule);
+    let t = StyleSheetTransformer::from_css("p.wxss", &css, StyleSheetOptions { class_prefix: Some("p".into()), class_prefix_sign: Some("S".into()), rpx_ratio: 750., convert_host: true, host_is: Some("h".into()), ..Default::default() });
+    if t.warnings().count() > 0 { return None; }
+    let (n, _l) = t.output_and_low_priority_output();
+    let mut outs = String::new();
+    n.write_str(&mut outs).unwrap();
+    let want = canon_str(&plain, Some("p"), true);
+    let got = canon_str(&outs, None, false);
+    if want != got {
+        let show = |v: &Vec<String>| v.iter().map(|s| if s == "\u{1}" { "\u{2423}".to_string() } else { s.clone() }).collect::<Vec<_>>().join(" ");
+        return Some((format!("with :host conversion: normal output {:?} retokenises to [{}]", outs, show(&got)), format!("[{}] (the sheet without its :host rules)", show(&want))));
     }
     None
 }
@@ -179,9 +197,25 @@ pub fn search() -> Outcome {
             _ => {}
         }
     }
+    for sel in combos(SEL, 2) {
+        count += 1;
+        let rule = format!("{}{{width:2rpx}}", sel);
+        let r2 = rule.clone();
+        match std::panic::catch_unwind(move || check_host(&r2)) {
+            Ok(Some((got, want))) => return Outcome { found: true, input: format!("host:{}", rule), observed: got, expected: want, evaluations: count, bound: BOUND.into() },
+            Err(_) => return Outcome { found: true, input: format!("host:{}", rule), observed: "panic".into(), expected: "no panic".into(), evaluations: count, bound: BOUND.into() },
+            _ => {}
+        }
+    }
     Outcome::none(count, BOUND)
 }
 pub fn run(input: &str) -> Outcome {
+    if let Some(rule) = input.strip_prefix("host:") {
+        return match check_host(rule) {
+            Some((got, want)) => Outcome { found: true, input: input.into(), observed: got, expected: want, evaluations: 1, bound: "single input".into() },
+            None => Outcome { found: false, input: input.into(), observed: String::new(), expected: String::new(), evaluations: 1, bound: "single input".into() },
+        };
+    }
     match check(input) {
         Some((got, want)) => Outcome { found: true, input: input.into(), observed: got, expected: want, evaluations: 1, bound: "single input".into() },
         None => Outcome { found: false, input: input.into(), observed: String::new(), expected: String::new(), evaluations: 1, bound: "single input".into() },
